@@ -6,8 +6,9 @@
     (possibly empty), `?` matches exactly one character, every other character matches itself.
   * Matching is case-insensitive: both sides are lower-cased first (`lower` is a parameter: Rust's
     `str::to_lowercase`).
-  * For `content.body` and for display names the pattern has to match a run of the text that is
-    delimited by word boundaries: `∃ i j, Glob p s[i,j) ∧ boundary s i ∧ boundary s j`, where a
+  * For `content.body` the pattern has to match a run of the text that is delimited by word
+    boundaries (a display name, `contains_display_name`, has to OCCUR as literal text in such a run —
+    "content.body contains the owner's display name" —, `LiteralWordMatch`): `∃ i j, Glob p s[i,j) ∧ boundary s i ∧ boundary s j`, where a
     boundary is the start of the text, its end, or a position next to a character outside
     `[A-Za-z0-9_]`.
 
@@ -76,11 +77,31 @@ def wordDecide (p s : Text) : Bool :=
         (List.range (s.length + 1)).any fun j =>
           decide (i ≤ j) && decide (boundary s j) && globDecide p (slice s i j)
 
+/-- The text `p` itself (no wildcards: every character stands for itself) occurs in `s` between word
+boundaries; the empty text only in the empty text. Used for display names. -/
+def LiteralWordMatch (p s : Text) : Prop :=
+  (p = [] ∧ s = []) ∨
+  (p ≠ [] ∧ ∃ i j, i ≤ j ∧ j ≤ s.length ∧ slice s i j = p ∧ boundary s i ∧ boundary s j)
+
+/-- Decision procedure for `LiteralWordMatch` (`literalWordDecide_iff`). -/
+def literalWordDecide (p s : Text) : Bool :=
+  if p.isEmpty then s.isEmpty
+  else
+    (List.range (s.length + 1)).any fun i =>
+      decide (boundary s i) &&
+        (List.range (s.length + 1)).any fun j =>
+          decide (i ≤ j) && decide (boundary s j) && decide (slice s i j = p)
+
 /-- Whole-value matching of an event property, case-insensitively. -/
 def valueMatches (lower : Text → Text) (p s : Text) : Prop := Glob (lower p) (lower s)
 
 /-- Word-boundary matching (`content.body`, display names), case-insensitively. -/
 def wordMatches (lower : Text → Text) (p s : Text) : Prop := WordMatch (lower p) (lower s)
+
+/-- "`content.body` contains the display name": the name as literal text on word boundaries,
+case-insensitively. -/
+def containsWordMatches (lower : Text → Text) (word s : Text) : Prop := LiteralWordMatch (lower word) (lower s)
+def containsWordDecide (lower : Text → Text) (word s : Text) : Bool := literalWordDecide (lower word) (lower s)
 
 def valueDecide (lower : Text → Text) (p s : Text) : Bool := globDecide (lower p) (lower s)
 def wordMatchDecide (lower : Text → Text) (p s : Text) : Bool := wordDecide (lower p) (lower s)
